@@ -1,7 +1,7 @@
 """Storage backends through which a consumer reaches a stored world.
 
 simstream  SimFile handed in as a stream (caller-owned)
-simpath    path resolved through SimFS.open / OsShim.isfile (library-owned handles)
+simpath    path under simfs.SIM_ROOT, resolved by SimFS through the process-wide open / os.path / os.stat seam (library-owned handles)
 bytesio    io.BytesIO
 realpath   real file in a per-world temp directory, given as str or pathlib.Path
 realfile   real buffered file object (io.BufferedReader) on that file
@@ -14,7 +14,7 @@ import pathlib
 import shutil
 import tempfile
 
-from .simfs import SimFS
+from .simfs import SimFS, SIM_ROOT
 from . import lib
 
 SIM_BACKENDS = ['simstream', 'simpath', 'bytesio']
@@ -53,7 +53,7 @@ class Store(object):
         if backend == 'simstream':
             return self.fs.stream(name)
         if backend == 'simpath':
-            return pathlib.PurePosixPath(name) if as_pathlib else name
+            return pathlib.Path(SIM_ROOT + name) if as_pathlib else SIM_ROOT + name
         if backend == 'bytesio':
             return io.BytesIO(self.fs.get(name))
         path = os.path.join(self.realdir(), name)
